@@ -34,8 +34,8 @@ Lemma functional_b_false s : functional_b s = false -> ~ uid_functional s.
 Proof. intros E H. apply functional_b_complete in H. congruence. Qed.
 
 (** witnesses (all on the store of a new account whose default mailboxes were
-    created at second 100): of the four repaired classes of the first round, and
-    of the remaining class validity_same_second *)
+    created at second 100) of the five repaired classes; the clock readings in
+    [w_same_second] are the SAME second for both CREATEs *)
 Definition A : str := S_ "A".
 Definition TRASH : str := S_ "Trash".
 Definition DELETED : str := S_ "\Deleted".
@@ -53,9 +53,6 @@ Definition w_same_second : list op :=
     histories on which the property holds *)
 Lemma repaired_witnesses_fine :
   forallb (fun h => clean (init 100) h && spec_b (run h (init 100)))
-          [w_copy_stale; w_copy_reuse; w_move; w_rename_inbox] = true.
+          [w_copy_stale; w_copy_reuse; w_move; w_rename_inbox; w_same_second] = true.
 Proof. vm_compute. reflexivity. Qed.
 
-Lemma refuted_same_second :
-  exists h, classify (init 100) h = Some CSameSecond /\ ~ uid_functional (run h (init 100)).
-Proof. exists w_same_second. split; [vm_compute; reflexivity | apply functional_b_false; vm_compute; reflexivity]. Qed.
